@@ -93,6 +93,11 @@ class FunctionVerifier(object):
             if not getattr(self.ex, 'heap_mode', False):
                 for cn in ('VRef', 'VCls', 'VUnset'):
                     st._add(Not(tm.Is(cn, t)))
+        for g in self.c.ghosts:
+            t = const('p_' + g, VAL)
+            self.params[g] = t
+            for cn in ('VRef', 'VCls', 'VUnset'):
+                st._add(Not(tm.Is(cn, t)))
         if self.fi.node.args.vararg:
             raise Unsupported('vararg function as verification root')
         return st
@@ -103,7 +108,7 @@ class FunctionVerifier(object):
             self._run()
         except (Unsupported, SpecError) as exc:
             self.error = '%s: %s' % (exc.__class__.__name__, exc)
-            ob = Obligation(self.fi.fid + '#supported', 'function within the supported subset')
+            ob = Obligation(self.c.fid + '#supported', 'function within the supported subset')
             ob.verdict = 'undecided'
             ob.detail = self.error
             self.obligations = [ob]
@@ -116,7 +121,7 @@ class FunctionVerifier(object):
         # assume requires
         ex.cur_func.append(fi)
         try:
-            req, extra = ex.eval_spec(c.requires, st)
+            req, extra = ex.eval_spec(c.requires, st, env_extra=self.params)
         finally:
             ex.cur_func.pop()
         st = st.assume(And(req, *extra))
@@ -146,7 +151,7 @@ class FunctionVerifier(object):
         return cond, extra
 
     def build_obligations(self, pre, finals):
-        c, fid = self.c, self.fi.fid
+        c, fid = self.c, self.c.fid
         obs = []
         rets = [f for f in finals if f.status == 'ret']
         excs = [f for f in finals if f.status == 'exc']
